@@ -44,7 +44,7 @@ class JSONPathTokenizer(Tokenizer):
 
 def parse(path: str, dialect: DialectType = None) -> exp.JSONPath:
     """Takes in a JSON path string and parses it into a JSONPath expression."""
-    from sqlglot.dialects import Dialect
+    from sqlglot.dialects.dialect import Dialect
 
     dialect_inst = Dialect.get_or_raise(dialect)
     jsonpath_tokenizer = dialect_inst.jsonpath_tokenizer()
